@@ -32,6 +32,12 @@ CHECKS = {
     "C07": dict(engine="E1+E5", cat="model_checking",
                 technique="explicit-state enumeration: base documents (seeds and all valid documents within d rewrites) x violation-injecting rewrite catalogue (26 rules x site kinds) applied at every applicable node; reference validator labels each mutant; refusal and zero-activity invariant checked on the real engine",
                 text="For 17 seed documents (queries, mutations, subscriptions) and every valid document within 1 rewrite (thorough 2), a catalogue of violation-injecting rewrites for each of the 26 documented rules is applied at every applicable node and site kind (operation, nested selection, named/inline fragment, directive argument, list item, nested input field, variable default, first/non-first operation). The reference validator certifies which rules each mutated document breaks; evidence reports per (rule, site) how many mutants break exactly one supported rule. Oracle: data null, errors non-empty, and zero resolver / type-resolver / directive-hook / subscription-source activity, for every operation name."),
+    "C08": dict(engine="E3+E5", cat="model_checking",
+                technique="stateless model checking of the real engine on a hand-stepped asyncio loop: exhaustive enumeration of all completion orders of suspended resolvers/hooks, plus bounded mid-run injections, x 9 concurrency configurations x single faults; deterministic replay",
+                text="13 requests over schema K (siblings, nested objects, lists of objects, merged fields, abstract fields, @skip/@include, two arguments with suspending argument hooks), each also with every single raise/null fault at every reachable field, under the 2x2x2 concurrency configurations plus a mixed per-field configuration. For each, ALL orders in which the event loop can complete the pending resolver futures are executed (all linear extensions), plus every schedule with <= 1 (thorough 2) completion injected between two ready callbacks. Every schedule's response must equal the reference and every other schedule's; every started resolver finished, none started twice, no pending future, no live task, no deadlock/livelock; resolver arguments equal the reference. One schedule per shard is replayed twice to prove determinism."),
+    "C09": dict(engine="E3+E5", cat="model_checking",
+                technique="stateless model checking on a hand-stepped asyncio loop: all interleavings of nested resolver completions for mutation documents x failure placements; serial-order invariant on the event log",
+                text="11 mutation documents (plain, aliases, root-level inline and named fragments, nested 2-element lists, repeated root keys, non-null roots, @skip with variables) x every failure placement (none; raise/null at each root field; raise/null at each nested field) x all completion orders of the suspended resolvers (+ <= 1 mid-run injection, thorough 2). Invariant: every start/finish event under root key r1 precedes every event under the next root key, never two roots pending together, response keys in document order, data/errors equal to the reference (a failing nullable root does not stop the next one, a failing non-null root nulls data)."),
     "C10": dict(engine="E1+E5", cat="model_checking",
                 technique="exhaustive enumeration of 8 scalars x 3 coercion directions x boundary-value universe on the real scalar objects and through a real engine; four algebraic laws checked on every triple against reference tables",
                 text="Every (scalar, direction, value) triple over 8 built-in scalars, result/input/literal directions and a 140-value boundary universe (0, +-1, +-2^31, +-2^53, huge ints, integral/non-integral floats, NaN, +-inf, denormals, numeric/blank/unicode strings, bools, containers, temporal strings and datetimes), on the scalar objects attached to a cooked schema and through echo fields of a real engine (resolver return, literal spelling, variable spelling). Laws: L1 result fails or yields the wire type denoting the same value; L2 input accepts exactly the spec kinds (reference tables in vf/model/coerce.py); L3 literal == variable; L4 idempotence and temporal round trips."),
